@@ -276,7 +276,7 @@ def gen_nested(rng, units, u, forms, knobs):
     shallow = {x["target"].lower() for x in u["uses"]}
     counter = [100]
     nforms = [f for f in forms if f in ("plain", "only", "only_rename", "prefix", "twice")] or ["plain"]
-    chains = [c for c in CHAINS if knobs.get("regions") or c not in ("absint_mod", "generic_body", "absint_proc")]
+    chains = list(CHAINS)
     k = 0
 
     def pick_target():
